@@ -7,6 +7,8 @@ Rules J1–J4 of DESIGN.md §3/C12 over data_type/injection.rs:
   J4  refusal paths: reviewed table of the primitive pairs (widening / narrowing / rendering); narrowing ones use value_map_option with Some and None both reachable,
       and refuse non-degenerate sets when the domain is dense
 """
+import re
+
 from . import facts
 from .core import Src, Anchor, find, walk, walk_guards, show, path_of, is_call_to, pat_binds
 from .mir import Mir
@@ -490,6 +492,17 @@ def j4(rep, src, impls):
         necessary="a narrowing conversion without a reachable refusal approximates (1.5 -> 1, 2 -> true); an interval image computed from the two ends declares convertible a type whose inner values are refused",
     )
     seen = set()
+    # which primitive pairs the generic tables `Base<X, DataType>` dispatch to (these are what DataType::into_data_type, hence is_subset_of / super_union, can reach)
+    dispatched = set()
+    for ty, fns in impls.items():
+        a2 = base_args(ty)
+        if len(a2) == 2 and a2[1] == "DataType" and a2[0] in PRIMS:
+            m = block_value(fns["super_image"].body)
+            if m is not None and m["k"] == "match":
+                for arm in m["arms"]:
+                    v = pat_class(arm["pat"])
+                    if v:
+                        dispatched.add((a2[0], v))
     for ty, fns in impls.items():
         args = base_args(ty)
         if not (len(args) == 2 and args[0] in PRIMS and args[1] in PRIMS and args[0] != args[1]):
@@ -528,14 +541,14 @@ def j4(rep, src, impls):
         g = fns["super_image"]
         setp = [p["pat"]["name"] for p in g.params if not p.get("self")][0]
         sites = [(x, gd) for x, gd in walk_guards(g.body) if x["k"] == "mcall" and x["m"] == "intervals_image" and path_of(x["recv"]) == "self"]
-        key = ty + "::super_image@all_values"
+        key = ty + "::super_image@all_values" + ("@dispatched" if pair in dispatched else "")
         if not dense:
             rep.instance("J4", key, {"impl": ty, "dense_domain": False, "why": reason}, nontrivial=False)
             continue
         guarded = bool(sites) and all(any(t_.endswith(".all_values()") and pol for t_, pol in guard_literals(gd)) for x, gd in sites)
         e = block_value(g.body)
         refuses = e is not None and e["k"] == "if" and e.get("else") is not None and (lambda v: v is not None and v["k"] == "call" and path_of(v["f"]) == "Err")(block_value(e["else"]))
-        rep.instance("J4", key, {"impl": ty, "dense_domain": True, "intervals_image_under_all_values": guarded, "refuses_otherwise": refuses})
+        rep.instance("J4", key, {"impl": ty, "dense_domain": True, "intervals_image_under_all_values": guarded, "refuses_otherwise": refuses, "dispatched_from_Base<%s, DataType>" % pair[0]: pair in dispatched})
         if not sites:
             rep.undecidable("J4", key, "no intervals_image call in super_image", g.where())
         elif not guarded:
@@ -776,6 +789,43 @@ def j3(rep, mir):
                 )
 
 
+def j5(rep, src, mir):
+    """The value side of a conversion has one entry: the injection chosen for the two types."""
+    rep.rule(
+        "J5",
+        "value::Variant::as_data_type (the value-level conversion used by casts and by DataType::contains) is the single delegation `self.data_type().inject_into(data_type)?.value(&v)`, "
+        "and no body of data_type/value.rs converts between the integer and float classes with an `as` cast (MIR FloatToInt / IntToFloat): every value conversion goes through the injections decided by J1-J4",
+        floor=2,
+        necessary="a shortcut next to the injection table converts values the table refuses (434.99999999999994 -> 435): not injective, no round trip, and the value side disagrees with the type side",
+    )
+    fs = [f for f in src.find_fns(name="as_data_type", file="data_type/value.rs") if f.body]
+    if len(fs) != 1:
+        rep.error("J5: as_data_type not found in data_type/value.rs (%d)" % len(fs))
+    else:
+        f = fs[0]
+        e = block_value(f.body)
+        one_stmt = len(f.body["stmts"]) == 1
+        txt = show(e, 0).replace(" ", "") if e is not None else ""
+        dt = [p["pat"]["name"] for p in f.params if not p.get("self") and p["pat"]["k"] == "ident"]
+        ok = one_stmt and e is not None and e["k"] == "call" and path_of(e["f"]) == "Ok" and bool(dt) and re.match(r"^Ok\(self\.data_type\(\)\.inject_into\(&?%s\)\?\.value\(&.*\)\??\)$" % re.escape(dt[0]), txt)
+        rep.instance("J5", "value::Variant::as_data_type", {"body": show(e, 120), "single_delegation": bool(ok)})
+        if not ok:
+            rep.violation("J5", "value::Variant::as_data_type", "as_data_type is not the single delegation to the injection of the two types: %s" % show(f.body, 120), f.where())
+    n = 0
+    for b in mir.bodies:
+        if b.get("file") != "src/data_type/value.rs":
+            continue
+        n += 1
+        for bl in b["blocks"]:
+            for st in bl["s"]:
+                rv = st[1]
+                if rv[0] == "cast" and rv[1] in ("FloatToInt", "IntToFloat"):
+                    rep.violation("J5", "%s|%s" % (b["path"], rv[1]), "numeric class conversion by `as` (%s) in the value module, outside the injection table" % rv[1], "%s:%d" % (b["file"], b.get("line", 0)))
+    rep.instance("J5", "value.rs:casts", {"bodies_scanned": n})
+    if n < 100:
+        rep.error("J5: only %d MIR bodies in src/data_type/value.rs" % n)
+
+
 def run(rep):
     rep.explanation = (
         "Static check of data_type/injection.rs (syn AST + type-checked MIR of the current tree). Decides: the variant tables of super_image and value agree for the 24 dispatching impls (J1); "
@@ -793,6 +843,7 @@ def run(rep):
     j4(rep, src, impls)
     mir = Mir(facts.mir_facts())
     j3(rep, mir)
+    j5(rep, src, mir)
     rep.extra["primitive_pairs"] = {"%s->%s" % k: v[0] for k, v in PAIRS.items()}
     from .util_enum import n1
 
